@@ -17,6 +17,7 @@
 #include <igris/datastruct/ring.h>
 #include <igris/datastruct/ring_counter.h>
 #include <memory>
+#include <string>
 #include <vector>
 
 using namespace vpbt;
@@ -1203,6 +1204,145 @@ void t_cyclic_large(Src &s, Case &c)
 VP_TARGET("cyclic_large", t_cyclic_large,
           "cyclic_buffer<int>(n) and the ring_counter helpers with n 250..262, 508..516, 41..300 and 3n+40 operations; same model "
           "as cyclic");
+
+// A ring of strings that own heap memory (messages, file names): contents against a deque. The ring is never destroyed
+// (its buffer's destructor would end the lifetime of popped slots a second time, which is not what is examined here).
+void t_cxx_ring_strings(Src &s, Case &c)
+{
+    unsigned cap = (unsigned)s.range(1, 8);
+    auto *R = new igris::ring<std::string>((int)cap);
+    std::deque<std::string> q;
+    unsigned seq = 0;
+    bool wrapped = false, refilled = false, drained = false;
+    auto mk = [&](unsigned k) { return std::string(20 + k % 40, (char)('a' + k % 26)) + std::to_string(k); };
+    c.log("ring<std::string>(%u): ", cap);
+    for (unsigned i = 0, n = (unsigned)s.range(0, 60); i < n; i++)
+    {
+        unsigned o = (unsigned)s.below(8);
+        bool want_push = o < 4;
+        if (want_push && q.size() == cap)
+            want_push = false;
+        if (!want_push && q.empty() && o < 6)
+            want_push = true;
+        if (want_push)
+        {
+            std::string v = mk(seq++);
+            unsigned h0 = R->r.head;
+            if (o & 1)
+            {
+                c.log("push ");
+                R->push(v);
+            }
+            else
+            {
+                c.log("emplace ");
+                R->emplace(v);
+            }
+            if (R->r.head < h0)
+                wrapped = true;
+            if (drained)
+                refilled = true;
+            q.push_back(v);
+        }
+        else if (o < 6)
+        {
+            c.log("pop ");
+            VP_CHECK(R->tail() == q.front(), "xs_tail", "tail() is \"%s\", the oldest string is \"%s\"", R->tail().c_str(), q.front().c_str());
+            R->pop();
+            q.pop_front();
+            if (q.empty())
+                drained = true;
+        }
+        else if (!q.empty())
+        {
+            unsigned off = (unsigned)s.below(q.size() + 1), cnt = (unsigned)s.below(q.size() - off + 1);
+            bool from_end = o == 7;
+            c.log("get_last(%u,%u,%d) ", off, cnt, (int)from_end);
+            std::vector<std::string> got = R->get_last((int)off, (int)cnt, from_end);
+            std::vector<std::string> want;
+            for (unsigned k = 0; k < cnt; k++)
+                want.push_back(from_end ? q[q.size() - 1 - off - k] : q[q.size() - off - cnt + k]);
+            VP_CHECK(got == want, "xs_get_last", "get_last(%u,%u,%d) returned other strings than the reference", off, cnt, (int)from_end);
+        }
+        VP_CHECK(R->avail() == q.size() && R->room() == cap - q.size(), "xs_counts", "avail=%u room=%u, the reference holds %zu of %u", R->avail(), R->room(), q.size(), cap);
+        if (!q.empty())
+            VP_CHECK(R->last() == q.back() && R->tail() == q.front(), "xs_ends", "last()/tail() differ from the reference's newest/oldest string");
+    }
+    // everything still stored, oldest first
+    for (size_t k = 0; !q.empty(); k++)
+    {
+        VP_CHECK(R->tail() == q.front(), "xs_drain", "draining: string #%zu differs from the reference", k);
+        R->pop();
+        q.pop_front();
+    }
+    c.nontrivial = wrapped && refilled;
+    if (wrapped)
+        c.label("wrapped");
+    // deliberately leaked (see above)
+}
+VP_TARGET("cxx_ring_strings", t_cxx_ring_strings,
+          "igris::ring<std::string> of capacity 1..8 with strings of 20..60 characters (heap owning): history <= 60 of push / emplace / pop / get_last, then a drain; tail(), "
+          "last(), get_last, avail/room against a deque; slots are re-used after pop (the sanitizer sees a write through a destroyed string); non-trivial = the head wrapped "
+          "and the ring was refilled after a complete drain");
+
+// A ring handed over by move construction (returned from a factory, stored in a container); the source is destroyed and the
+// new owner keeps working.
+void t_cxx_ring_moved(Src &s, Case &c)
+{
+    unsigned cap = (unsigned)s.range(1, 40);
+    auto *A = new igris::ring<int>((int)cap);
+    std::deque<int> q;
+    int seq = (int)s.biased_int<int16_t>();
+    unsigned pre = (unsigned)s.below(cap + 1), drop = (unsigned)s.below(pre + 1);
+    for (unsigned i = 0; i < pre; i++)
+    {
+        A->push(seq);
+        q.push_back(seq++);
+    }
+    for (unsigned i = 0; i < drop; i++)
+    {
+        A->pop();
+        q.pop_front();
+    }
+    c.log("ring<int>(%u) with %u pushed, %u popped; B(std::move(A)); delete A; then on B: ", cap, pre, drop);
+    auto *B = new igris::ring<int>(std::move(*A));
+    bool early = s.coin();
+    if (early)
+        delete A; // the moved-from ring goes away first ...
+    auto check = [&](const char *when) {
+        VP_CHECK(B->avail() == q.size() && B->room() == cap - q.size() && B->size() == cap + 1, "xm_counts", "%s: avail=%u room=%u size=%u, reference holds %zu of %u", when,
+                 B->avail(), B->room(), B->size(), q.size(), cap);
+        if (!q.empty())
+            VP_CHECK(B->last() == q.back() && B->tail() == q.front(), "xm_ends", "%s: last()=%d tail()=%d, reference %d / %d", when, B->last(), B->tail(), q.back(), q.front());
+    };
+    check("after the move");
+    for (unsigned i = 0, n = (unsigned)s.range(0, 60); i < n; i++)
+    {
+        if ((s.coin() && q.size() < cap) || q.empty())
+        {
+            c.log("push ");
+            B->push(seq);
+            q.push_back(seq++);
+        }
+        else
+        {
+            c.log("pop ");
+            VP_CHECK(B->tail() == q.front(), "xm_tail", "tail()=%d, reference %d", B->tail(), q.front());
+            B->pop();
+            q.pop_front();
+        }
+        check("history");
+    }
+    if (!early)
+        delete A; // ... or last
+    check("after the source is gone");
+    c.nontrivial = pre > drop;
+    c.label(early ? "source_destroyed_first" : "source_destroyed_last");
+    delete B;
+}
+VP_TARGET("cxx_ring_moved", t_cxx_ring_moved,
+          "igris::ring<int> (capacity 1..40, partly filled and drained) move-constructed into a second ring; the source is destroyed before or after a history <= 60 of push / pop "
+          "on the new owner: counts, size, last(), tail() against the reference; non-trivial = elements were stored at the time of the move");
 
 void t_cyclic_huge(Src &s, Case &c)
 {
